@@ -2,6 +2,7 @@ import AikenVerif.Drivers.Names
 import AikenVerif.Drivers.Cek
 import AikenVerif.Drivers.Shrink
 import AikenVerif.Drivers.Flat
+import AikenVerif.Drivers.DeBruijn
 /-!
 Native driver: line protocol.  Each request line is
   `<sub-command> <case-id> <fields…>`
@@ -23,6 +24,7 @@ def dispatch (st : DriverState) (sub : String) (args : List String) : DriverStat
   | "spec" => (st, Drivers.Cek.handleSpec args)
   | "shrink" => (st, Drivers.Shrink.handle args)
   | "flat" => (st, Drivers.Flat.handle args)
+  | "db" => (st, Drivers.DeBruijn.handle args)
   | _ => (st, "unknown-subcommand")
 
 partial def loop (h : IO.FS.Stream) (out : IO.FS.Stream) (st : DriverState) : IO Unit := do
